@@ -25,14 +25,14 @@ extern "C" void* __libc_realloc(void*, size_t); extern "C" void* __libc_memalign
 
 namespace {
 
-enum { MAXT = 6, MAXPOINTS = 60000, MAXW = 8192, MAXRACE = 48, MAXFAIL = 16, MAXRANGES = 16, OUTCOME_LEN = 2000 };
+enum { MAXT = 6, MAXPOINTS = 60000, MAXW = 8192, MAXRACE = 48, MAXFAIL = 16, MAXRANGES = 16, OUTCOME_LEN = 4000 };
 enum State { ST_UNUSED, ST_RUNNABLE, ST_BLOCKED, ST_YIELD, ST_FINISHED };
 enum Kind { K_NONE, K_READ, K_WRITE, K_AREAD, K_AWRITE, K_ARMW, K_LOCK, K_UNLOCK, K_CREATE, K_JOIN, K_GUARD, K_COND, K_EXIT, K_YIELD, K_START };
 
 struct VC { uint32_t c[MAXT]; };
 struct Point { uint8_t n, chosen, cur_enabled, tid, kind, watched; };
 struct Race { uintptr_t addr, pc1, pc2; uint8_t t1, t2, w1, w2, a1, a2, is_static, foreign; };
-struct Fail { char sig[120]; char detail[600]; };
+struct Fail { char sig[120]; char detail[2000]; };
 struct Shared {                       // parent <-> child
    // input
    int n_prefix; uint8_t prefix[MAXPOINTS]; uint8_t prefix_n[MAXPOINTS], prefix_tid[MAXPOINTS];
